@@ -1,6 +1,7 @@
 package props
 
 import (
+	"go/types"
 	"fmt"
 	"go/token"
 	"sort"
@@ -23,21 +24,21 @@ func (s *sess) checkEventMapping(rule string, want map[string]string) {
 	if !c.Anchor("state writer", cs != nil && len(cs.Params) == 3, "(*Session).changeState(state, trigger)", posOf(cs)) {
 		return
 	}
-	paths, _ := an.EnumPaths(cs, 256)
+	paths, _ := an.EnumPathsX(cs, 256)
 	got := map[string]string{}
 	okFlag := true
 	for _, p := range paths {
 		if p.Return == nil {
 			continue
 		}
-		// trigger calls on the path
-		for _, b := range p.Blocks {
-			for _, in := range b.Instrs {
+		// trigger calls on the path (a helper that maps the state to its event is read through)
+		{
+			for _, in := range p.InstrSeq() {
 				call, ok := in.(*ssa.Call)
 				if !ok || !an.CalleeIs(&call.Call, "utils", "EventHandlerPool.Trigger") {
 					continue
 				}
-				ev := evName(call.Call.Args[1])
+				ev := evName(an.ResolveOnPath(call.Call.Args[1], p))
 				st := "?"
 				for _, a := range p.Atoms {
 					if a.L == "state" && a.Rel == "==" {
@@ -507,6 +508,26 @@ func (s *sess) checkLogonParams(rule string) {
 	var bad []string
 	nTrue, nFalseMethod, nFalseHb := 0, 0, 0
 	for _, p := range paths {
+		// the three results may travel as the fields of one struct literal (in declaration order; an omitted field is zero)
+		if p.Return != nil && len(p.Results) == 1 {
+			if st, isSt := p.ResVals[0].Type().Underlying().(*types.Struct); isSt && st.NumFields() == 3 {
+				if lit, ok := an.StructLit(an.ResolveOnPath(p.ResVals[0], p)); ok {
+					var res []string
+					for i := 0; i < 3; i++ {
+						if v, has := lit[an.FieldName(st.Field(i))]; has {
+							res = append(res, an.RenderOnPath(v, p))
+						} else if b, isB := st.Field(i).Type().Underlying().(*types.Basic); isB && b.Kind() == types.Bool {
+							res = append(res, "false")
+						} else {
+							res = append(res, "0")
+						}
+					}
+					q := *p
+					q.Results = res
+					p = &q
+				}
+			}
+		}
 		if p.Return == nil || len(p.Results) != 3 {
 			bad = append(bad, "a path does not return (ok, tag, reason)")
 			continue
